@@ -353,6 +353,23 @@ def gen_scenarios(ctx):
             steps += more
             steps += efforts_from_pattern(rng, mode, cfg, [rng.random() < 0.5, True], len(names))[:1]
         out.append(scenario(mode, cfg, [ps], steps, 'life'))
+    # (10) very long outages: >= 1100 consecutive failed attempts, then a success — far beyond where the
+    #      doubling back-off leaves the range of a float (2**1024) and of any fixed-width counter; float and
+    #      int configurations, no attempt limit and a limit above the length; the effort must keep going
+    #      (attempt k happens, wait k within the capped window) until the success
+    combos = [(mode, kind, lim) for mode in modes for kind in ('float', 'int') for lim in (0, 'above')]
+    rng.shuffle(combos)
+    picked = combos[:ctx.scale(4, 8)]
+    if not any(k == 'float' for _m, k, _l in picked):
+        picked[0] = (picked[0][0], 'float', picked[0][2])
+    for mode, kind, lim in picked:
+        L = rng.randint(1100, 1100 + ctx.scale(60, 1200))
+        cfg = mk_cfg(rng, d=rng.choice(['1/4', '1', '3'] if kind == 'float' else ['1', '3']),
+                     m=rng.choice(['1', '5', '60']), n=0 if lim == 0 else L + rng.randint(1, 50))
+        cfg['kind'] = kind
+        ps = gen_params(rng, mode, simple=True)
+        steps = [['connect', 0]] + efforts_from_pattern(rng, mode, cfg, [False] * L + [True], 1)
+        out.append(scenario(mode, cfg, [ps], steps, 'very-long-outage'))
     rng.shuffle(out)
     return out
 
@@ -789,6 +806,11 @@ def run(ctx):
     n_losses = 0
     for sc, obs, ans, cut in zip(scs, results, answers, cuts):
         ctx.count('scenario.' + sc['tag'])
+        if sc['tag'] == 'very-long-outage':
+            ctx.count('very_long_outage.%s.%s_delay.%s' % (sc['mode'], sc['cfg']['kind'],
+                                                           'limit_above_length' if sc['cfg']['attempts'] else 'no_limit'))
+            ctx.coverage['longest_effort_attempts'] = max(
+                ctx.coverage.get('longest_effort_attempts', 0), max(len(st[2]) for st in sc['steps'] if st[0] == 'lose'))
         ctx.count('mode.' + sc['mode'])
         ok = check_scenario(ctx, sc, obs, ans, cut)
         # model's own view of the region must agree with the harness's
@@ -840,6 +862,8 @@ def run(ctx):
                 'transport refusals, namespace refusals (CONNECT_ERROR, partial or total) or a loss inside the '
                 'attempt; abort at every back-off wait by shutdown() or the abort flag; full grid of '
                 'delay x max x factor x limit; reconnection on/off; several connects with different parameters; '
+                'a few very long outages (>= 1100 consecutive failed attempts then a success, float and int '
+                'configurations, no limit / limit above the length, both clients); '
                 'connections on 2-3 namespaces (given, or derived from the handlers by namespaces=None) on which, between '
                 'connect() and the loss, the server refuses some namespaces (connect(wait=False)) or ends them one by '
                 'one (DISCONNECT packet) and the application emits / registers a handler for a new namespace: the '
